@@ -255,3 +255,10 @@ func (sq *Queue) VerifSetChildSortPolicy(sortType policies.SortPolicy, considerP
 	sq.sortType = sortType
 	sq.prioritySortEnabled = considerPriority
 }
+
+// VerifSetReservationWaitTimeout replaces the time a reservation without headroom is kept and returns the previous value.
+func VerifSetReservationWaitTimeout(d time.Duration) time.Duration {
+	old := reservationWaitTimeout
+	reservationWaitTimeout = d
+	return old
+}
